@@ -166,8 +166,8 @@ func (s *state) walk(node ast.Node) {
 		s.context.push()
 		var (
 			keyVar  = node.Var
-			keyInd  = node.Var + "__index"
-			keyLast = node.Var + "__lastIndex"
+			keyInd  = node.Var + loopIndexSuffix
+			keyLast = node.Var + loopLastIndexSuffix
 		)
 		s.context.set(keyLast, data.Int(len(list)-1))
 		for i, item := range list {
